@@ -223,6 +223,11 @@ def producer(chk, facts, nf, im, cm, fn, method, label, sfx, subst=None, make_ar
             undef = undefined_quotients(dom, list(lohi), strict=False)
             chk.ob(key + ':div-domain', 'E4 domain of definition', '%s(%s): every quotient the code forms on the accepted path has a denominator that is non-zero on the domain (the rational-function identity is an identity of values only there)' % (label, kname),
                    not undef, '' if not undef else 'the code divides by %s, which can vanish on the domain' % undef[0], where)
+        if not probs and oks and lohi is not None and all('n' in T.syms_of(b) and 'k' in T.syms_of(b) for b in lohi if not T.is_const(b)):
+            from ..asym import cancellations
+            canc = cancellations(nf, [b for b in lohi if not T.is_const(b)], 'n')
+            chk.ob(key + ':cancellation', 'leading-order analysis', '%s(%s): for a rare event (k fixed, n -> infinity) no bound is obtained as the difference of two intermediates whose leading terms cancel (the bound is of order k/n and must be accurate relative to itself, not to 1)' % (label, kname),
+                   not canc, '' if not canc else 'leading-order cancellation at order n^%s in %s: the absolute rounding error of the operands becomes a relative error of the bound that grows like n/k' % (canc[0][1], canc[0][0]), where)
         chk.ob(key + ':formula', 'E4', '%s(%s): bounds are the %s formula of the statement with the %s kind table' % (label, kname, method, kname),
                not probs, '; '.join(probs[:3]), where,
                sample={'fn': label, 'kind': kname, 'centre': T.show(centre)[:120], 'span': T.show(span)[:160]})
